@@ -740,7 +740,10 @@ func (p *Proxy) handle(ctx *Context, conn net.Conn, brw *bufio.ReadWriter) error
 	if !req.ProtoAtLeast(1, 1) && len(res.TransferEncoding) > 0 {
 		res.TransferEncoding = nil
 		res.ContentLength = -1
-		res.Close = true
+		// A response to HEAD has no body: nothing has to be delimited by closing.
+		if req.Method != "HEAD" {
+			res.Close = true
+		}
 	}
 
 	var closing error
